@@ -1232,6 +1232,40 @@ pub fn c08(rec: &mut Rec, lm: &Landmarks, rng: &mut Rng, thorough: bool) {
             }
         }
     }
+    // the panicking helper constructors on invalid fields: they document a panic - a shifted date is what must not happen
+    for (i, (y, mo, d, hh, mi, ss)) in [(2021i32, 3u8, 4u8, 25u8, 0u8, 0u8), (2021, 3, 4, 0, 60, 0), (2021, 3, 4, 0, 0, 61), (2021, 3, 4, 23, 59, 60), (2021, 13, 4, 0, 0, 0),
+        (2021, 0, 4, 0, 0, 0), (2021, 2, 29, 0, 0, 0), (2021, 4, 31, 12, 0, 0), (2021, 3, 0, 0, 0, 0), (2016, 12, 31, 12, 59, 60), (2017, 6, 30, 23, 59, 60), (1900, 2, 29, 1, 2, 3)].iter().enumerate() {
+        for form in 0..12u8 {
+            let ts = match form {
+                4..=7 => TimeScale::UTC,
+                8..=11 => TimeScale::TAI,
+                _ => SCALES[(i + form as usize) % 9],
+            };
+            // the fields the helper actually uses (at_midnight / at_noon ignore the time of day, hms the nanoseconds)
+            let (uh, um, us) = match form % 4 {
+                1 => (0, 0, 0),
+                2 => (12, 0, 0),
+                _ => (*hh, *mi, *ss),
+            };
+            m.rec.episode();
+            let (yy, mm, dd) = (*y, *mo, *d);
+            let r = match form {
+                0 => catch(|| Epoch::from_gregorian(yy, mm, dd, uh, um, us, 0, ts)),
+                1 => catch(|| Epoch::from_gregorian_at_midnight(yy, mm, dd, ts)),
+                2 => catch(|| Epoch::from_gregorian_at_noon(yy, mm, dd, ts)),
+                3 => catch(|| Epoch::from_gregorian_hms(yy, mm, dd, uh, um, us, ts)),
+                4 => catch(|| Epoch::from_gregorian_utc(yy, mm, dd, uh, um, us, 0)),
+                5 => catch(|| Epoch::from_gregorian_utc_at_midnight(yy, mm, dd)),
+                6 => catch(|| Epoch::from_gregorian_utc_at_noon(yy, mm, dd)),
+                7 => catch(|| Epoch::from_gregorian_utc_hms(yy, mm, dd, uh, um, us)),
+                8 => catch(|| Epoch::from_gregorian_tai(yy, mm, dd, uh, um, us, 0)),
+                9 => catch(|| Epoch::from_gregorian_tai_at_midnight(yy, mm, dd)),
+                10 => catch(|| Epoch::from_gregorian_tai_at_noon(yy, mm, dd)),
+                _ => catch(|| Epoch::from_gregorian_tai_hms(yy, mm, dd, uh, um, us)),
+            };
+            m.rec.ev("from_greg_panicky", format!("\"ts\":{},{},\"res\":{}", ts_idx(ts), jfields(yy, mm, dd, uh, um, us, 0), jres_epoch(&r)), true);
+        }
+    }
     // every inserted leap second and its neighbours: same time other day, other time same day
     for (t, _) in leap_entries() {
         let days = (t / 86_400) as i64 - 1; // the day before the entry
